@@ -4,7 +4,7 @@ generators of abstract programs and of scenarios.
 An abstract program is a dict with the fields of harness/pkg/h.Prog plus a "style" dict that
 only the renderer reads (how value types are spelled, the order in which options are listed,
 how task functions are written, the emitter arrangement)."""
-import json, os, random
+import json, os, random, re
 
 KINDS = ["struct", "ptr", "int", "slice", "map", "generic", "ext"]
 SENTINEL = "h.Sentinel"
@@ -13,6 +13,8 @@ SENTINEL = "h.Sentinel"
 # ------------------------------------------------------------------ value types
 class Ty:
     def __init__(self, prog, k, kind):
+        if kind == "ext" and k > 12:
+            kind = "struct"
         self.k, self.kind = k, kind
         self.n = "%sT%d" % (prog, k)
 
@@ -35,13 +37,13 @@ class Ty:
     def go(self):
         n = self.n
         return {"struct": n, "ptr": "*" + n, "int": n, "slice": "[]%sE" % n, "map": "map[string]%sE" % n,
-                "generic": "%s[string]" % n, "ext": "ext.E%d" % (self.k % 6 + 1)}[self.kind]
+                "generic": "%s[string]" % n, "ext": "ext.E%d" % self.k}[self.kind]
 
     def mk(self, tok):
         n = self.n
         return {"struct": "%s{Tok: %s}" % (n, tok), "ptr": "&%s{Tok: %s}" % (n, tok), "int": "%s(%s)" % (n, tok),
                 "slice": "[]%sE{{Tok: %s}}" % (n, tok), "map": 'map[string]%sE{"k": {Tok: %s}}' % (n, tok),
-                "generic": "%s[string]{Tok: %s}" % (n, tok), "ext": "ext.E%d{Tok: %s}" % (self.k % 6 + 1, tok)}[self.kind]
+                "generic": "%s[string]{Tok: %s}" % (n, tok), "ext": "ext.E%d{Tok: %s}" % (self.k, tok)}[self.kind]
 
     def acc(self, v):
         n = self.n
@@ -306,26 +308,40 @@ def render_program(p):
     return decls, src
 
 
-HEADER = """//go:build cff
-
-package %s
-
-import (
-	"context"
-
-	"go.uber.org/cff"
-	"vgen/ext"
-
-	"verif/harness/pkg/h"
-)
-
-var _ = context.Background
-var _ ext.E1
-
-"""
+def header(pkg, fstyle):
+    """File header. fstyle: build-constraint header, import aliases (cff, context, ext, h)."""
+    ca, xa, ea = fstyle.get("cff", ""), fstyle.get("context", ""), fstyle.get("ext", "")
+    cons = fstyle.get("constraint", "//go:build cff")
+    return ("%s\n\npackage %s\n\nimport (\n\t%s\"context\"\n\n\t%s\"go.uber.org/cff\"\n\t%s\"vgen/ext\"\n\n\t\"verif/harness/pkg/h\"\n)\n\n"
+            "var _ = %s.Background\nvar _ %s.E1\n\n" % (cons, pkg, (xa + " ") if xa else "", (ca + " ") if ca else "",
+                                                         (ea + " ") if ea else "", xa or "context", ea or "ext"))
 
 
-def write_module(root, packages):
+def respell(text, fstyle):
+    """Applies the file's import aliases to rendered program text."""
+    for name in ("cff", "context", "ext"):
+        a = fstyle.get(name, "")
+        if a:
+            text = re.sub(r"\b%s\." % name, a + ".", text)
+    return text
+
+
+SURROUND = [
+    "// {n}Const is surrounding code that generation must not touch.\nconst {n}Const = {k} // trailing comment\n\n",
+    "var {n}Var = []string{{\"a\", \"b\"}} /* block comment */\n\n",
+    "type {n}Iface interface {{\n\tM(int) string // method comment\n}}\n\n",
+    "func {n}Helper(xs ...int) (s int) {{\n\tfor _, x := range xs {{\n\t\tif x%2 == 0 {{\n\t\t\tcontinue\n\t\t}}\n\t\ts += x\n\t}}\n\treturn\n}}\n\n",
+]
+
+
+def gen_fstyle(rng):
+    return dict(cff=rng.choice(["", "", "c", "cff2"]), context=rng.choice(["", "", "stdctx"]),
+                ext=rng.choice(["", "", "time", "debug", "multierr"]),
+                constraint=rng.choice(["//go:build cff", "//go:build cff", "//go:build cff\n// +build cff",
+                                       "// +build cff", "//go:build cff && !never"]))
+
+
+def write_module(root, packages, fancy=True):
     """packages: {pkgname: [prog,...]}. Writes a Go module 'vgen' that the real cff can process."""
     os.makedirs(root, exist_ok=True)
     with open(os.path.join(root, "go.mod"), "w") as f:
@@ -337,7 +353,7 @@ def write_module(root, packages):
     os.makedirs(os.path.join(root, "ext"), exist_ok=True)
     with open(os.path.join(root, "ext", "ext.go"), "w") as f:
         f.write("// Package ext holds value types declared outside the package that uses cff.\npackage ext\n\n" +
-                "".join("// E%d is a token carrier.\ntype E%d struct{ Tok int }\n\n" % (i, i) for i in range(1, 7)))
+                "".join("// E%d is a token carrier.\ntype E%d struct{ Tok int }\n\n" % (i, i) for i in range(1, 13)))
     allprogs = []
     for pkg, progs in packages.items():
         d = os.path.join(root, pkg)
@@ -352,14 +368,17 @@ def write_module(root, packages):
             i += n
         for fi, chunk in enumerate(files):
             decls, srcs = "", ""
+            fstyle = gen_fstyle(rng) if fancy else {}
             for p in chunk:
                 dd, ss = render_program(p)
                 decls += dd
+                if fancy:
+                    srcs += rng.choice(SURROUND).format(n=p["name"], k=rng.randint(1, 99))
                 srcs += ss + "\n"
                 q = {k: v for k, v in p.items() if k != "style"}
                 allprogs.append(q)
             with open(os.path.join(d, "%s%d.go" % (pkg, fi)), "w") as f:
-                f.write(HEADER % pkg + decls + srcs)
+                f.write(header(pkg, fstyle) + respell(decls + srcs, fstyle))
         with open(os.path.join(d, "reg.go"), "w") as f:
             f.write("package %s\n\nimport \"verif/harness/pkg/h\"\n\n// Registry lists the rendered functions.\n"
                     "var Registry = map[string]func(*h.X){\n%s}\n" % (pkg, "".join('\t"%s": %s,\n' % (p["name"], p["name"]) for p in progs)))
